@@ -193,7 +193,8 @@ CHECKS["C32"] = dict(
               "accounting.Accounting through a blocking settlement stub; recorded trace judged by the TLA+ trace spec; the "
               "race detector observes the same calls running free in a child process (thorough tier)",
     level_text="TLC exhausts the Accounting model (2 peers, 3 goroutines, Reserve/Credit/Debit/NotifyPayment cut at every "
-               "settlement call, blocking on the peer lock with hand-over) and generates one shortest behaviour per (model state, "
+               "settlement call, the first contact with a peer as its own step -- RetrieveTraffic under the map mutex --, blocking on the "
+               "map mutex / peer lock with hand-over) and generates one shortest behaviour per (model state, "
                "step) plus random behaviours of up to 6 calls; each is forced on real accounting.NewAccounting (every settlement "
                "call parks until released; a goroutine blocked on the peer mutex is recognised by its goroutine state) and every "
                "recorded result, Pay request and probed balance is judged by AccountingTrace.tla",
@@ -203,23 +204,37 @@ CHECKS["C32"] = dict(
                "identification by runtime.Stack, FIFO order of the pay channel (sentinel credit), the Reserve(peer,0) probe",
     design=[dict(spec="MCAccounting.tla", cfg="MCAccounting.cfg", cfg_thorough="MCAccounting_thorough.cfg", workers=8, timeout=900)],
     gen=dict(
-        quick=[dict(_ACCT, mode="edges", cfg="AccountingGenEdges.cfg", depth=10, max=700, name="edges-2calls", env=dict(VERIF_MAXOPS=2)),
-               dict(_ACCT, mode="sim", cfg="AccountingGenSim.cfg", depth=16, num=500, max=500, name="walks-6calls", env=dict(VERIF_MAXOPS=6))],
-        thorough=[dict(_ACCT, mode="edges", cfg="AccountingGenEdges.cfg", depth=12, max=2000, name="edges-3calls", env=dict(VERIF_MAXOPS=3),
+        quick=[dict(_ACCT, mode="edges", cfg="AccountingGenEdges.cfg", depth=10, max=500, name="edges-2calls", env=dict(VERIF_MAXOPS=2)),
+               dict(_ACCT, mode="sim", cfg="AccountingGenSim.cfg", depth=16, num=400, max=350, name="walks-6calls", env=dict(VERIF_MAXOPS=6)),
+               # first contact: accounting has not seen the peers; RetrieveTraffic (under the map mutex) is a gate
+               dict(_ACCT, mode="edges", cfg="AccountingGenEdges.cfg", depth=12, max=350, name="fresh-edges-2calls",
+                    env=dict(VERIF_MAXOPS=2, VERIF_FRESH=1)),
+               dict(_ACCT, mode="edges", cfg="AccountingGenEdges.cfg", depth=14, max=350, name="fresh-onepeer-edges-3calls",
+                    env=dict(VERIF_MAXOPS=3, VERIF_FRESH=1, VERIF_ONEPEER=1))],
+        thorough=[dict(_ACCT, mode="edges", cfg="AccountingGenEdges.cfg", depth=12, max=1500, name="edges-3calls", env=dict(VERIF_MAXOPS=3),
                        timeout=900),
-                  dict(_ACCT, mode="sim", cfg="AccountingGenSim.cfg", depth=16, num=2500, max=2000, name="walks-6calls",
-                       env=dict(VERIF_MAXOPS=6))]),
+                  dict(_ACCT, mode="sim", cfg="AccountingGenSim.cfg", depth=16, num=2500, max=1500, name="walks-6calls",
+                       env=dict(VERIF_MAXOPS=6)),
+                  dict(_ACCT, mode="edges", cfg="AccountingGenEdges.cfg", depth=14, max=1500, name="fresh-edges-3calls",
+                       env=dict(VERIF_MAXOPS=3, VERIF_FRESH=1), timeout=900),
+                  dict(_ACCT, mode="edges", cfg="AccountingGenEdges.cfg", depth=14, max=1000, name="fresh-onepeer-edges-3calls",
+                       env=dict(VERIF_MAXOPS=3, VERIF_FRESH=1, VERIF_ONEPEER=1)),
+                  dict(_ACCT, mode="sim", cfg="AccountingGenSim.cfg", depth=20, num=1500, max=1000, name="fresh-walks-6calls",
+                       env=dict(VERIF_MAXOPS=6, VERIF_FRESH=1), salt=9)]),
     post_gen=_c32_post,
     judge=dict(spec="AccountingTrace.tla", cfg="AccountingTrace.cfg"),
     corrupt=corrupt_field("release", "pays", _c32_corrupt),
     nontrivial=_c32_contended,
     rule="TLC-generated behaviours of 3 goroutines on 2 peers over credit {1,2} / notify {1,3} / debit (served traffic 1,2 vs "
          "tolerance 2) / reserve (1 vs available 1,3), threshold 2 (edges: one shortest behaviour per (model state, step) of the "
-         "model bounded to N calls; walks: -simulate, 6 calls); distinct = distinct step sequence; non-trivial = two goroutines "
+         "model bounded to N calls; walks: -simulate, 6 calls; fresh-*: accounting has not seen the peers, so concurrent first "
+         "operations on the same new peer -- Credit/Credit, Credit/Notify, Reserve/Credit, two and three goroutines -- are forced "
+         "through the first-contact gate); distinct = distinct step sequence; non-trivial = two goroutines "
          "call into the same peer and one of them changes its balance",
     exhaustive=dict(quick=False, thorough=False),
-    assumptions=["at most one goroutine waits for a given peer lock in a generated behaviour (the order in which a mutex wakes "
-                 "several waiters is not observable without hooks)",
+    assumptions=["few goroutines wait for one lock in a generated behaviour; which of several waiters a mutex wakes first is not "
+                 "forced: goroutines found to have moved on at the same moment are logged returned-first, parked-second, which is "
+                 "a real order of their sections (a goroutine that ran after one now parked inside the lock would still be blocked)",
                  "the settlement stub never fails; a payment notification larger than the balance clamps at zero (the reading under "
                  "which 'never negative' and the subtraction agree)",
                  "race detection is sampling: absence of a report is not a proof"],
